@@ -9,7 +9,7 @@ import cases as C  # noqa
 import corr  # noqa
 from lib import f32, f2h, h2f  # noqa
 
-MODULES = ["InovesaModel.Props.C04", "InovesaModel.Props.C01FP", "InovesaModel.Props.TieMain", "InovesaModel.Props.TieRuler"]
+MODULES = ["InovesaModel.Props.C04", "InovesaModel.Props.C01FP", "InovesaModel.Props.TieMain", "InovesaModel.Props.TieRuler", "InovesaModel.Props.TiePhysics"]
 LEVEL = "proof"
 U = 2.0 ** -24
 
